@@ -294,7 +294,7 @@ def run_chunk(binary, args, env, timeout):
     return p.returncode, lines, p.stderr
 
 
-def run_engine_a(sc, binary, mode, tier, seed0, count, chunk, nproc, race=False, timeout=900, stop_on_violation=True, gomaxprocs=4, refbin=None):
+def run_engine_a(sc, binary, mode, tier, seed0, count, chunk, nproc, race=False, timeout=900, stop_on_violation=True, gomaxprocs=4, refbin=None, free=False):
     """Runs `count` seeds starting at seed0 in chunks over nproc processes; returns an Agg."""
     agg = Agg()
     refdir = os.path.join(sc.dir, "refcache")
@@ -313,6 +313,8 @@ def run_engine_a(sc, binary, mode, tier, seed0, count, chunk, nproc, race=False,
         while n > 0:
             args = ["batch", "-mode", mode, "-tier", tier, "-corpus", sc.corpus_path, "-census", sc.census_path,
                     "-refdir", refdir, "-seeds", "%d:%d" % (start, n), "-samples", "1" if start == seed0 else "0"]
+            if free:
+                args.append("-free")
             env = {"GOMAXPROCS": str(gomaxprocs)}
             if refbin:
                 env["SIM_REFBIN"] = refbin
